@@ -191,7 +191,7 @@ def typed_expr(draw, T: str, depth: int, scope: Dict[str, str], opts: Optional[d
         return ("method", sub("string"), fn, (sub("string"),))
     if c == "matches":
         pat = ("lit", "string", draw(regex_pattern()))
-        recv = sub("string") if draw(st.booleans()) else ("lit", "string", draw(st.text(alphabet="abc.", max_size=5)))
+        recv = sub("string") if draw(st.booleans()) else ("lit", "string", draw(st.text(alphabet="abc.\n", max_size=5) | st.sampled_from(["a\nb", "\n", "ab\n", "\nab", "a\n\nc"])))
         if draw(st.booleans()):
             return ("method", recv, "matches", (pat,))
         return ("call", "matches", (recv, pat))
